@@ -10,6 +10,7 @@ mod feedrive;
 mod js;
 mod keys;
 mod lj;
+mod rewarddrive;
 mod stakedrive;
 mod swapdrive;
 mod tipdrive;
@@ -210,6 +211,13 @@ fn cmd_tips(a: &Args) {
     println!("{}", json!({"records": n}));
 }
 
+fn cmd_reward(a: &Args) {
+    let mut out = Out::new(&a.s("out", "reward.ndjson"));
+    rewarddrive::grid(&mut out, a.u64("seed", 1), a.u64("n", 2000));
+    let n = out.finish();
+    println!("{}", json!({"records": n}));
+}
+
 fn cmd_swap(a: &Args) {
     let mut out = Out::new(&a.s("out", "swap.ndjson"));
     let net = drive::net_of(&a.s("net", "custom02"));
@@ -245,6 +253,7 @@ fn main() {
         Some("codec") => cmd_codec(&a),
         Some("ledger") => cmd_ledger(&a),
         Some("swap") => cmd_swap(&a),
+        Some("reward") => cmd_reward(&a),
         Some("tips") => cmd_tips(&a),
         Some("env") => cmd_env(&a),
         Some("universe") => cmd_universe(&a),
